@@ -158,6 +158,15 @@ class Run(object):
         path = self.write_replay(case, {'failing_clause': why})
         self.violations.append((why, path))
 
+    def tolerant(self, fn, default=None):
+        """Canary construction must never turn a run into a machinery failure (a changed library can make
+        the recorded traces look unlike anything the corruption code expects)."""
+        try:
+            return fn()
+        except Exception as e:      # noqa
+            self.notes['canary_construction_failed'] = '%s: %s' % (type(e).__name__, e)
+            return [] if default is None else default
+
     # ---------------------------------------------------------------- bookkeeping
     def count(self, key, nontrivial=True):
         self.evaluations += 1
